@@ -18,6 +18,7 @@
 #include <cxxabi.h>
 #include <deque>
 #include <exception>
+#include <filesystem>
 #include <fstream>
 #include <functional>
 #include <future>
@@ -387,6 +388,12 @@ bool reg2 = getPluginRegistry().add("verif_b", VerifPlugin::create);
 
 const char* kFs = "/sys/fs/cgroup";
 
+// vh::rmrf forks `rm -rf`, which is slow under ASan; the scratch directory is small and known
+void rmTree(const std::string& d) {
+  std::error_code ec;
+  std::filesystem::remove_all(d, ec);
+}
+
 std::string meminfoFile(const std::string& dir, const Json::Value& sc) {
   std::string p = dir + "/meminfo";
   std::ostringstream s;
@@ -462,7 +469,7 @@ void doInit(const Json::Value& sc, Json::Value& out) {
   } catch (...) {
     out["r"] = "uncaught:unknown";
   }
-  vh::rmrf(dir);
+  rmTree(dir);
 }
 
 void doCompile(const Json::Value& sc, Json::Value& out) {
@@ -487,7 +494,7 @@ void doCompile(const Json::Value& sc, Json::Value& out) {
   Json::Value l(Json::arrayValue);
   for (auto& x : log) l.append(x);
   out["init_log"] = l;
-  vh::rmrf(dir);
+  rmTree(dir);
 }
 
 // the daemon's start-up path: Main.cpp parseConfig(file) then compile
@@ -532,7 +539,7 @@ void doLoad(const Json::Value& sc, Json::Value& out) {
   } catch (...) {
     out["parse"] = "X:unknown";
   }
-  vh::rmrf(dir);
+  rmTree(dir);
 }
 
 // a drop-in file appearing in the watched directory of a running daemon: the real FsDropInService
@@ -554,7 +561,7 @@ void doDropIn(const Json::Value& sc, Json::Value& out) {
   }
   if (!engine) {
     out["r"] = "base-rejected";
-    vh::rmrf(dir);
+    rmTree(dir);
     return;
   }
   Json::Value before = dumpEngine(engine.get());
@@ -602,7 +609,7 @@ void doDropIn(const Json::Value& sc, Json::Value& out) {
     out["dropin_parse"] = "E:" + excName(e);
   }
   out["base_ir"] = irToJson(*root);
-  vh::rmrf(dir);
+  rmTree(dir);
 }
 
 } // namespace
